@@ -19,6 +19,8 @@ var fmtTrouble = []string{
 	"##! ##!> include inc", "##! ##!+ i", "##! ##!> assemble", "##! ##!<", "##!+ I", "##!+ x", "##!> cmdline unix extra", "##!> assemblefoo",
 	"##!> assemble extra", "##!> include inc trailing text", "##!> include-except inc", "##!> define n", "##!> define n v w", "##!<<", "##!< trailing", "##!=>x", "##! ##!^ p",
 	"##!^", "##!+", "a ##!> include inc", "##!>", "##!> cmdline", "##!>define n v",
+	// white space other than blank and TAB at the start of a line belongs to the line (the compiler strips only blanks and TABs)
+	"\ffoo", "\vbar", "\u00a0baz", " \fqux", "\f##!> assemble", "\v##!<", "\u2003##!+ i", "foo\f", "\f",
 }
 
 type fmtVariant struct {
